@@ -71,6 +71,7 @@ Messages(d, side, first) ==
               o \in OfType(d, "wl_data_device"), x \in OfType(d, "wl_data_offer")}
      \cup {Msg("wl_data_device", o, "selection", side, <<NilA>>) : o \in OfType(d, "wl_data_device")}
      \cup {Msg("wl_data_offer", o, "finish", ~side, <<>>) : o \in OfType(d, "wl_data_offer")}
+     \cup {Msg("wl_data_offer", o, "destroy", ~side, <<>>) : o \in OfType(d, "wl_data_offer")}   \* a destructor request: a message like any other
 
 \* the side of a connection is fixed by its first message; before that both are on offer
 SideOf(c) == LET k == OpenIdx(S, TagOf(c)) IN
